@@ -66,7 +66,7 @@ func c13RegistryFirst(p *Prog, r *Report) {
 		}
 		info := fi.Pkg.TypesInfo
 		f := p.FlatInl(fi)
-		usesTx := len(f.CallNodes("internal/model.GetTxId")) > 0
+		usesTx := len(f.CallNodes("internal/model.GetTxId")) > 0 || p.funcCallsDeep(fi, p.keysPred("internal/model.GetTxId"))
 		if !usesTx {
 			continue
 		}
